@@ -22,6 +22,7 @@ static Rng* g_rng = nullptr;
 
 template<class X> struct is_vec : std::false_type {};
 template<glm::length_t L, class T, glm::qualifier Q> struct is_vec<glm::vec<L, T, Q>> : std::true_type {};
+template<glm::length_t L, class T, glm::qualifier Q> constexpr int veclen(glm::vec<L, T, Q> const*) { return int(L); }
 template<class X> auto comp(X const& x, int i) { if constexpr (is_vec<X>::value) return x[i]; else return x; }
 template<glm::qualifier Q> const char* qname() { return Q == glm::highp ? "highp" : Q == glm::mediump ? "mediump" : "lowp"; }
 template<class X> void put_arg(Ev& e, X const& x) { e.arg(x); }
@@ -30,7 +31,7 @@ template<class X> void put_arg(Ev& e, X const& x) { e.arg(x); }
 template<class T, glm::qualifier Q, class F, class... A>
 void lift(const char* fname, const char* kind, F fn, A const&... a) {
     auto r = fn(a...);
-    typedef decltype(r) RV; typedef typename RV::value_type RT; constexpr int L = int(RV::length());
+    typedef decltype(r) RV; typedef typename RV::value_type RT; constexpr int L = veclen(static_cast<RV const*>(nullptr));
     glm::vec<L, RT, Q> s;
     for (int i = 0; i < L; ++i) s[i] = RT(fn(comp(a, i)...));
     Ev e("lift"); e.str("f", fname).str("t", TI<T>::code()).str("q", qname<Q>()).num("n", L).str("k", kind);
